@@ -159,3 +159,28 @@ def _(user_cfg):
                       and (rasterio_open(user_cfg[side][k]).width != rasterio_open(user_cfg[side]["img"]).width
                            or rasterio_open(user_cfg[side][k]).height != rasterio_open(user_cfg[side]["img"]).height)
                       for side in ["left", "right"] for k in ["mask", "classif", "segm"]))
+
+
+# C15 "when the pipeline contains a multiscale step ...": where the number of scales comes from.  read_multiscale_params, per
+# structure of the configuration: the parameters of the FIRST step whose name is multiscale or multiscale.<suffix>, else (1, 1).
+@contract("pandora.check_configuration.read_multiscale_params", props=["C15"])
+def _(cfg):
+    types(cfg="opaque", result="tuple")
+    type_cases(cfg=[
+        {"pipeline": {"matching_cost": {"window_size": "int"}, "disparity": {"invalid_disparity": "int"}}},
+        {"pipeline": {"matching_cost": {"window_size": "int"}, "disparity": {"invalid_disparity": "int"},
+                      "multiscale": {"multiscale_method": "str", "num_scales": "int", "scale_factor": "int", "marge": "int"}}},
+        {"pipeline": {"matching_cost": {"window_size": "int"}, "disparity": {"invalid_disparity": "int"},
+                      "filter": {"filter_size": "int"},
+                      "multiscale.coarse": {"multiscale_method": "str", "num_scales": "int", "scale_factor": "int", "marge": "int"}}},
+        {"input": {"left": {"img": "str"}}}])
+    option(no_fuzz=True)
+    raises_never()
+    ensures("no_multiscale_one_scale", (result[0] == 1 and result[1] == 1)
+            if not any(k.split(".")[0] == "multiscale" for k in cfg.get("pipeline", {})) else True)
+    ensures("plain_key", (result[0] == cfg["pipeline"]["multiscale"]["num_scales"]
+                          and result[1] == cfg["pipeline"]["multiscale"]["scale_factor"])
+            if "multiscale" in cfg.get("pipeline", {}) else True)
+    ensures("suffixed_key", (result[0] == cfg["pipeline"]["multiscale.coarse"]["num_scales"]
+                             and result[1] == cfg["pipeline"]["multiscale.coarse"]["scale_factor"])
+            if "multiscale.coarse" in cfg.get("pipeline", {}) else True)
